@@ -1263,6 +1263,55 @@ fn main() {
             }
             println!("level0_files_after={}", db.num_level_zero_files_for_verif());
         }
+        // manual_request_during_compaction : a size-triggered level-0 compaction is writing its output when another thread
+        // requests a manual compaction. Does the requester return, and does the background thread survive?
+        "manual_request_during_compaction" => {
+            use raindb::WriteOptions;
+            let fs = rdbv::faultfs::FaultFs::new();
+            let mut o = raindb::DbOptions::with_memory_env();
+            o.filesystem_provider = std::sync::Arc::new(fs.clone());
+            o.db_path = "db".to_string();
+            o.create_if_missing = true;
+            let db = std::sync::Arc::new(raindb::DB::open(o).expect("open"));
+            db.hold_background_for_verif(true);
+            for round in 0..4 {
+                db.put(WriteOptions::default(), b"a".to_vec(), format!("begin{}", round).into_bytes()).unwrap();
+                db.put(WriteOptions::default(), b"z".to_vec(), format!("end{}", round).into_bytes()).unwrap();
+                db.flush_to_level_zero_for_verif();
+            }
+            println!("level0_files={}", db.num_level_zero_files_for_verif());
+            let (tx, rx) = std::sync::mpsc::channel();
+            let db2 = std::sync::Arc::clone(&db);
+            let tx2 = std::sync::Mutex::new(Some(tx));
+            fs.on_touch(".rdb", std::sync::Arc::new(move || {
+                // runs on the compaction thread, in its unlocked section
+                let db3 = std::sync::Arc::clone(&db2);
+                let tx3 = tx2.lock().unwrap().take().unwrap();
+                std::thread::spawn(move || {
+                    db3.force_level_compaction_for_verif(0);
+                    let _ = tx3.send(());
+                });
+                std::thread::sleep(std::time::Duration::from_millis(400));
+            }));
+            db.hold_background_for_verif(false);
+            println!("scheduled={}", db.schedule_compaction_for_verif());
+            match rx.recv_timeout(std::time::Duration::from_secs(15)) {
+                Ok(()) => println!("requester=returned"),
+                Err(_) => {
+                    println!("requester=stuck");
+                    std::process::exit(0);
+                }
+            }
+            // the background thread must still serve a flush
+            db.put(WriteOptions::default(), b"k".to_vec(), b"v".to_vec()).unwrap();
+            let (tx4, rx4) = std::sync::mpsc::channel();
+            let db4 = std::sync::Arc::clone(&db);
+            std::thread::spawn(move || { let _ = tx4.send(db4.flush_for_verif()); });
+            match rx4.recv_timeout(std::time::Duration::from_secs(15)) {
+                Ok(ok) => println!("later_flush={}", if ok { "ok" } else { "err" }),
+                Err(_) => { println!("later_flush=stuck"); std::process::exit(0); }
+            }
+        }
         "vs_recover" => {
             // a database is created, written and closed; a fresh version set recovers from its files
             use raindb::WriteOptions;
